@@ -307,7 +307,17 @@ def check(ctx):
     uw = ctx.fn("TLSStream.unwrap", TLS)
     dominates_all_exits(ctx, "R17-c", uw, "await self._call_sslobject_method(self._ssl_object.unwrap)", "unwrap performs the closing handshake through the pump")
     wrap = ctx.fn("TLSStream.wrap", TLS)
-    clr = ctx.sites(wrap, "ssl_context.options &= ~ssl.OP_IGNORE_UNEXPECTED_EOF")
+    from .common import origin_of
+
+    def _is_clear(x):
+        """`ssl_context.options &= ~<the OP_IGNORE_UNEXPECTED_EOF flag>` - the flag named directly or fetched with getattr() into a local first"""
+        if not (isinstance(x, ast.AugAssign) and isinstance(x.op, ast.BitAnd) and norm(x.target) == "ssl_context.options"
+                and isinstance(x.value, ast.UnaryOp) and isinstance(x.value.op, ast.Invert)):
+            return False
+        o_ = norm(origin_of(wrap.node, x.value.operand))
+        return o_ == "ssl.OP_IGNORE_UNEXPECTED_EOF" or (o_.startswith("getattr(ssl, 'OP_IGNORE_UNEXPECTED_EOF'"))
+
+    clr = [(x, {}) for x in own_walk(wrap.node) if _is_clear(x)]
     if ctx.need("R17-c", wrap, "`ssl_context.options &= ~ssl.OP_IGNORE_UNEXPECTED_EOF`", len(clr), 1):
         ok = lexically_inside(clr[0][0], lambda x: isinstance(x, ast.If) and atom(x.test) == ("ssl_context", False), stop=wrap.node)
         ctx.ob("R17-c", wrap, "unexpected-EOF detection is re-enabled on the context wrap() creates itself", ok, node=clr[0][0],
